@@ -32,6 +32,36 @@ class Spec:
         col.undecided_clauses = list(self.undecided)
         col.assumptions = list(self.assumptions)
         self.runner(repo, col)
+        # rules every property shares, applied to its own anchor files
+        anchors = anchor_modules(self.pid)
+        if anchors:
+            M2.swapped_arguments(repo, col, shorts=anchors)
+            M3.little_endian_literals(repo, col, anchors)
+
+
+_ANCHORS = {}
+
+
+def anchor_modules(pid):
+    """Module short names of the property's anchor files
+    (properties.jsonl)."""
+    if not _ANCHORS:
+        import json
+        import os
+        from .report import VERIF
+        try:
+            for line in open(os.path.join(VERIF, "properties.jsonl")):
+                rec = json.loads(line)
+                mods = []
+                for f in rec["anchors"]["files"]:
+                    if f.startswith("src/neuroglancer_scripts/") and \
+                            f.endswith(".py"):
+                        mods.append(f[len("src/neuroglancer_scripts/"):-3]
+                                    .replace("/", "."))
+                _ANCHORS[rec["id"]] = mods
+        except OSError:
+            pass
+    return _ANCHORS.get(pid, [])
 
 
 PROPS = {}
@@ -84,6 +114,7 @@ UNITS_INFO = [("volume_reader", "nibabel_image_to_info", "vs", 1e6),
        "memory-mapped vs full-load equality"],
       ["NumPy promotion / safe-cast / iinfo tables embedded in rules_dtype"])
 def c01(repo, col):
+    M3.payload_reaches_storage(repo, col)
     M3.squeeze_without_axis(repo, col, ["volume_reader"])
     M3.multichannel_table_agrees(repo, col)
     T.tiling_site(repo, col, "volume_reader", "volume_to_precomputed")
@@ -155,6 +186,7 @@ def c02(repo, col):
       ["value round trips of each codec", "JPEG error bound",
        "interleavings of writes and reads"])
 def c03(repo, col):
+    M3.payload_reaches_storage(repo, col, only=["file_accessor", "precomputed_io"])
     O.validation_dominates_io(repo, col)
     B.validator_complete(repo, col)
     B.validator_same_entry(repo, col)
@@ -187,6 +219,7 @@ def c03(repo, col):
        "the reorder buffer's run-time state)", "gzip payload validity"],
       ["sharded v1 format as published in the Neuroglancer repository"])
 def c04(repo, col):
+    M3.payload_reaches_storage(repo, col, only=["sharded_file_accessor", "sharded_base"])
     SP.sharded_layout(repo, col)
     SP.routing_bits(repo, col)
     O.shard_index_last(repo, col)
@@ -220,6 +253,7 @@ def c04(repo, col):
        "of a stateful buffer)", "content of data written by the on-disk "
        "byte array"])
 def c05(repo, col):
+    M3.payload_reaches_storage(repo, col, only=["sharded_file_accessor", "sharded_base"])
     M3.dirty_cleared_after_write(repo, col)
     sh = ["sharded_base", "sharded_file_accessor", "sharded_http_accessor"]
     S.protocol_conformance(repo, col)
@@ -257,6 +291,7 @@ def c05(repo, col):
       ["the downscaler's values", "that the scale generator only emits "
        "compatible scale pairs"])
 def c06(repo, col):
+    M3.downscaler_dispatch(repo, col)
     T.tiling_site(repo, col, "dyadic_pyramid", "compute_dyadic_downscaling")
     T.coords_tuple(repo, col, "dyadic_pyramid", "compute_dyadic_downscaling")
     _top, helpers = T.pyramid_sites(repo)
@@ -291,6 +326,7 @@ def c06(repo, col):
       ["NumPy promotion tables embedded in rules_dtype",
        "np.unique returns sorted labels; np.argmax returns the first maximum"])
 def c07(repo, col):
+    M3.downscaler_dispatch(repo, col)
     D.averaging_accumulator(repo, col)
     # the averaged float64 values go back through the converter
     D.converter_lattice(repo, col, in_types=["f8", "f4"])
@@ -398,6 +434,8 @@ def c11(repo, col):
        "chunk-name patterns are axis-consistent; options reach FileAccessor"],
       ["last-write-wins over operation histories", "gzip stream validity"])
 def c12(repo, col):
+    M3.payload_reaches_storage(repo, col, only=["file_accessor"])
+    M3.gzip_branch_polarity(repo, col)
     M3.write_open_truncates(repo, col)
     SB.confinement(repo, col)
     SB.overwrite_and_gzip(repo, col)
@@ -425,6 +463,7 @@ def c12(repo, col):
        "flush chain"],
       ["decoded equality of source and destination", "remote sources"])
 def c13(repo, col):
+    M3.payload_reaches_storage(repo, col)
     T.tiling_site(repo, col, "scripts.convert_chunks",
                   "convert_chunks_for_scale")
     T.coords_tuple(repo, col, "scripts.convert_chunks",
@@ -464,6 +503,8 @@ def c13(repo, col):
       ["byte equality with local reads", "server behaviours beyond status "
        "and length"])
 def c14(repo, col):
+    M3.legacy_suffix_polarity(repo, col)
+    M2.shard_protocol_guards(repo, col)
     sh = ["sharded_base", "sharded_http_accessor", "http_accessor"]
     S.populated_before_lookup(repo, col, sh)
     S.shared_mutable_state(repo, col, sh)
@@ -576,6 +617,7 @@ def c17(repo, col):
       ["atomicity of plain chunk files (there is none: detection relies on "
        "the decoders, C10)", "behaviour under each errno"])
 def c18(repo, col):
+    M3.payload_reaches_storage(repo, col)
     M3.pil_truncation_switch(repo, col)
     M3.dirty_cleared_after_write(repo, col)
     M3.new_dataset_store_failure(repo, col)
@@ -602,6 +644,7 @@ def c18(repo, col):
        "always pass through the codec"],
       ["equality of the two outputs", "idempotence of repeated steps"])
 def c19(repo, col):
+    M3.payload_reaches_storage(repo, col)
     M3.all_in_one_info_edits(repo, col)
     M3.new_dataset_store_failure(repo, col)
     SB.pipeline_composition(repo, col)
